@@ -183,6 +183,11 @@ func Unreachable(msg string) { panic(assertFailed{"reached Unreachable: " + msg}
 // ExploreSchedules turns on schedule exploration in the engine (no-op natively).
 func ExploreSchedules(on bool) {}
 
+// ExploreMapOrders makes the iteration order of every `range` over a Go map with two
+// or three entries a decision of the engine (all orders are explored; larger maps:
+// forward and reverse insertion order). Natively a no-op: Go randomises the order.
+func ExploreMapOrders(on bool) {}
+
 // PreemptionBound sets the maximal number of preemptive context switches per
 // schedule under ExploreSchedules (default 2); switches forced by blocking are free.
 func PreemptionBound(n int) {}
